@@ -3,18 +3,20 @@
 (* Design-level model of back-end selection (C13).                         *)
 (*                                                                         *)
 (* The CPU is an environment function cpuid[leaf, subleaf] over a family   *)
-(* of CPU models (SSE2 or not, AVX2 or not, maximum basic leaf).  The      *)
-(* probes are modelled as the code performs them: leaf 1 -> EDX bit 26;    *)
-(* leaf 7 -> EBX bit 5, where the sub-leaf register holds `ecx`:           *)
-(*   Shipped = TRUE : whatever the calling context left there (any value   *)
-(*                    of Garbage), as __cpuid(7, ...) does not set it      *)
-(*   Shipped = FALSE: 0, as __cpuid_count(7, 0, ...) does                  *)
-(* then the cascade generic -> 128-bit -> 256-bit of the init functions    *)
-(* and the parallel_size assignment.  Every init call happens in an        *)
-(* arbitrary calling context (ecx value) and under an arbitrary cap.       *)
-(*                                                                         *)
-(* Environment assumption (explicit): an OS that runs on a CPU reporting   *)
-(* AVX2 has enabled the YMM state (the probe has no XGETBV test).          *)
+(* of CPU models: SSE2 or not; AVX2 flag or not; highest basic leaf below  *)
+(* 7 or not (then a query of leaf 7 is answered with unrelated data, whose *)
+(* bit 5 may be set); YMM state enabled by the operating system or not.    *)
+(* The probes are modelled as the code performs them: leaf 1 -> EDX bit    *)
+(* 26; leaf 7 -> EBX bit 5, where the sub-leaf register holds `ecx`; then  *)
+(* the cascade generic -> 128-bit -> 256-bit of the init functions and the *)
+(* parallel_size assignment.  Every init call happens in an arbitrary      *)
+(* calling context (ecx value) and under an arbitrary cap.                 *)
+(* Shipped: set of flags selecting the probe as the pinned tree had it     *)
+(*   "subleaf"  : the sub-leaf register is whatever the calling context    *)
+(*                left there, as __cpuid(7, ...) does not set it  (D1)     *)
+(*   "nomaxleaf": leaf 7 is queried without asking for the highest leaf (D8)*)
+(*   "noos"     : the AVX2 flag is trusted without OSXSAVE / XGETBV   (D9) *)
+(* With any flag set TLC must find a violation (negative configs).         *)
 (***************************************************************************)
 EXTENDS Contract, TLC
 
@@ -26,15 +28,22 @@ VARIABLES cpu,        \* [sse2, avx2 \in 0..1]  -- constant of a behaviour
           calls
 vars == <<cpu, built, sel, calls>>
 
-CPUs == [sse2 : {0, 1}, avx2 : {0, 1}]
+(* avx2: the flag in leaf 7; leaf7: the CPU has leaf 7; top5: bit 5 of what an out-of-range *)
+(* leaf answers; os: the operating system has enabled the YMM state                          *)
+CPUs == [sse2 : {0, 1}, avx2 : {0, 1}, leaf7 : {0, 1}, top5 : {0, 1}, os : {0, 1}]
+Usable256(c) == IF c.leaf7 = 1 /\ c.avx2 = 1 /\ c.os = 1 THEN 1 ELSE 0
 Builds == {[b128 |-> 1, b256 |-> 1], [b128 |-> 1, b256 |-> 0], [b128 |-> 0, b256 |-> 0]}
 
 (* CPUID as the hardware answers: an invalid sub-leaf of leaf 7 returns zeros *)
 CpuidEDX1(c) == c.sse2
-CpuidEBX7(c, subleaf) == IF subleaf = 0 THEN c.avx2 ELSE 0
+CpuidEBX7(c, subleaf) == IF c.leaf7 = 0 THEN c.top5 ELSE IF subleaf = 0 THEN c.avx2 ELSE 0
 
 HasVec128(c, b, ecx) == IF b.b128 = 1 THEN CpuidEDX1(c) ELSE 0
-HasVec256(c, b, ecx) == IF b.b256 = 1 THEN CpuidEBX7(c, IF Shipped THEN ecx ELSE 0) ELSE 0
+HasVec256(c, b, ecx) ==
+    IF b.b256 = 0 THEN 0
+    ELSE IF "nomaxleaf" \notin Shipped /\ c.leaf7 = 0 THEN 0
+    ELSE IF CpuidEBX7(c, IF "subleaf" \in Shipped THEN ecx ELSE 0) = 0 THEN 0
+    ELSE IF "noos" \in Shipped THEN 1 ELSE c.os
 
 (* the cascade of ..._ctr_init / ..._parallel_ecb_init, with hook H2's cap *)
 Select(kind, c, b, cap, ecx) ==
@@ -45,7 +54,7 @@ Select(kind, c, b, cap, ecx) ==
 PSizeOf(kind, be) == IF kind = "s128" /\ be = "v256" THEN 128 ELSE 64
 
 Init == cpu \in CPUs /\ built \in Builds /\ sel = {} /\ calls = 0
-        /\ (cpu.avx2 = 1 => cpu.sse2 = 1)          \* every AVX2 CPU has SSE2
+        /\ (cpu.avx2 = 1 => cpu.sse2 = 1 /\ cpu.leaf7 = 1)   \* every AVX2 CPU has SSE2 and leaf 7
 
 DoInit(kind, cap, ecx) ==
     /\ calls < MaxCalls
@@ -56,13 +65,13 @@ DoInit(kind, cap, ecx) ==
 Next == \E kind \in Kinds, cap \in 0..2, ecx \in Garbage : DoInit(kind, cap, ecx)
 Spec == Init /\ [][Next]_vars
 
-Env == [sse2 |-> cpu.sse2, avx2 |-> cpu.avx2, built128 |-> built.b128, built256 |-> built.b256]
+Env == [sse2 |-> cpu.sse2, avx2 |-> Usable256(cpu), built128 |-> built.b128, built256 |-> built.b256]
 
 (* the widest back end that is compiled in, supported by the CPU and allowed by the cap *)
 SelectWidest == \A s \in sel : s[3] = Widest(Env, s[1], s[2]) /\ s[4] = ParSize(s[1], s[3])
 (* the same answer every time within a process *)
 SelectStable == \A s, t \in sel : s[1] = t[1] /\ s[2] = t[2] => s[3] = t[3]
 (* never a back end whose instructions the CPU cannot execute *)
-NeverExceeds == \A s \in sel : /\ s[3] = "v256" => cpu.avx2 = 1
+NeverExceeds == \A s \in sel : /\ s[3] = "v256" => Usable256(cpu) = 1
                                /\ s[3] = "v128" => cpu.sse2 = 1
 =============================================================================
